@@ -64,8 +64,11 @@ Pending(w) == todo[w] \cap BatchOf(w, pc[w])
 \* first[w]: "yes" no object of this batch handled yet | "unlink" probe file open | <object> probe done on it |
 \*           "copied" the probed object has been copied
 \* the reflink attempt on the first object of a batch: os.open(final, O_WRONLY|O_CREAT|O_TRUNC) ...
+\* (the add()-style callers - index.save, upload staging - take the directory object from the in-memory staging area:
+\* no link of any kind is tried across file systems, so that batch starts with the copy; a transfer may also have a
+\* local store as its source, and then the directory object is probed like any file)
 ProbeOpen(w, o) ==
-    /\ Phase(w) /\ first[w] = "yes" /\ o \in Pending(w) /\ tmp[w][o] = "none"
+    /\ Phase(w) /\ (pc[w] = "files" \/ Style[w] = "transfer") /\ first[w] = "yes" /\ o \in Pending(w) /\ tmp[w][o] = "none"
     /\ IF ~Privileged /\ final[o] # "none" /\ prot[o]
        THEN \* F10 (open): EACCES on another writer's protected object is not a tolerated errno: this writer fails
             /\ failedW' = failedW \cup {w} /\ pc' = [pc EXCEPT ![w] = "failed"]
@@ -87,7 +90,7 @@ ProbeUnlink(w, o) ==
     /\ UNCHANGED <<gen, vouch, tmp, pc, todo, batch, failedW, crashes, clock, dev, probed>>
 \* the probed object is copied first, the others afterwards (one put_file each: copy to a temporary name, rename)
 CanCopy(w, o) == /\ Phase(w) /\ o \in Pending(w) /\ tmp[w][o] = "none"
-                 /\ (first[w] = "probed" /\ probed[w] = o) \/ first[w] = "copied"
+                 /\ (first[w] = "probed" /\ probed[w] = o) \/ first[w] = "copied" \/ (pc[w] = "dir" /\ Style[w] = "add")
 TmpCopy(w, o) ==
     /\ CanCopy(w, o)
     /\ tmp' = [tmp EXCEPT ![w][o] = "full"]
@@ -169,7 +172,7 @@ Complete == \A o \in Objects : Intact(o) /\ prot[o]
 C15_RerunConverges == (AllDone /\ dev = {}) => Complete
 \* the rule that (re)adding must follow; F7 (open): add()-style only asks whether the final path exists, so the
 \* empty file a crash inside the reflink probe left there is kept, protected and vouched for
-F7Condition == \E w \in Writers : Style[w] = "add" /\ \E o \in Objects : final[o] = "empty"
+F7Condition == \E w \in Writers : Style[w] = "add" /\ \E o \in Req[w] : final[o] = "empty"
 \* ---- C16, several writers: at the end
 C16_AllSucceed == (AllDone /\ dev = {}) => failedW = {}
 C16_Intact == (AllDone /\ dev = {} /\ failedW = {}) => Complete
